@@ -61,6 +61,31 @@ fn call_of_spec_ev(ev: &Value, tk: &Tokens) -> Option<HCall> {
             Call::Slice { dst: 1, v: u("v"), p: Pred::from_json(&p) }
         }
         "inspect" => return None,
+        "deploy" => {
+            // the program with its tokens replaced by the concrete label / datum, and its text in a plain formatting
+            // (formatting as such is ScriptGen's business; here the point is the STATE the script is deployed to)
+            let mut prog = ev["prog"].clone();
+            let mut texts: Vec<String> = vec![];
+            let rf = |r: &Value, nu: bool| -> String {
+                if r["k"] == "var" { format!("${}", r["name"].as_str().unwrap()) } else if nu { format!("ν{}", r["id"]) } else { format!("{}", r["id"]) }
+            };
+            for c in prog.as_array_mut()? {
+                match c["c"].as_str()? {
+                    "ADD" => texts.push(format!("ADD({})", rf(&c["v"], true))),
+                    "BIND" => {
+                        let a = tk.label(c["a"].as_str()?);
+                        c["a"] = json!(a);
+                        texts.push(format!("BIND({}, {}, {a})", rf(&c["v1"], false), rf(&c["v2"], true)));
+                    }
+                    _ => {
+                        let d = tk.datum(c["d"].as_str()?);
+                        c["d"] = json!(d);
+                        texts.push(format!("PUT({}, {d})", rf(&c["v"], false)));
+                    }
+                }
+            }
+            Call::Deploy { text: texts.join(";\n") + ";", prog, fault_at: 0 }
+        }
         _ => return None,
     };
     Some(HCall { h: 0, call })
@@ -198,6 +223,7 @@ fn ret_matches(ev: &SpecEv, ret: &Ret, tk: &Tokens) -> bool {
             }
         }
         (Call::NextId, Ret::Id(i)) => ev.ret.as_u64() == Some(*i as u64),
+        (Call::Deploy { .. }, Ret::Count(n)) => ev.ret.as_u64() == Some(*n as u64),
         (Call::Clone { .. }, Ret::Ok) | (Call::Reload { .. }, Ret::Ok) | (Call::Slice { .. }, Ret::Ok) => true,
         (Call::Add { .. }, Ret::Unit) | (Call::Bind { .. }, Ret::Unit) | (Call::Put { .. }, Ret::Unit) => true,
         _ => false,
